@@ -9,6 +9,7 @@ use routecore::bgp::nlri::afisafi::{Afi, AfiSafiType, NlriType};
 use routecore::bgp::types::AddpathDirection;
 use routecore::bgp::aspath::SegmentType;
 use routecore::bgp::message::notification::{NotificationMessage, Details};
+use routecore::bgp::message::{Header, MsgType};
 
 fn line_u<T, I>(out: &mut impl Write, key: &str, n: I, w: u32, viol: &mut Vec<String>, obs: bool)
 where
@@ -116,6 +117,25 @@ fn all_enums(out: &mut impl Write, viol: &mut Vec<String>, obs: bool) {
             }
             Err(_) => {}
         }
+    }
+    // Header::msg_type: the hand-written decoder of the message type octet, read back through u8::from(MsgType)
+    {
+        let key = "Header::msg_type@src/bgp/message/mod.rs";
+        let mut names: std::collections::HashMap<String, u64> = Default::default();
+        for n in 0..=255u8 {
+            let mut h = [0xffu8; 19];
+            h[16] = 0; h[17] = 19; h[18] = n;
+            let v: MsgType = Header::for_slice(&h[..]).msg_type();
+            let back = u8::from(v);
+            let dbg = format!("{:?}", v);
+            if back != n { viol.push(format!("enum {key}: {n} -> {dbg} -> {back}")); }
+            if v != MsgType::from(n) { viol.push(format!("enum {key}: {n} -> {dbg} but MsgType::from gives {:?}", MsgType::from(n))); }
+            if !dbg.contains('(') {
+                if let Some(prev) = names.insert(dbg.clone(), n as u64) { viol.push(format!("enum {key}: {prev} and {n} both map to {dbg}")); }
+            }
+            if obs && (dbg != format!("Unimplemented({n})") || back != n) { writeln!(out, "ENUM {key} {n} {dbg} {back}").unwrap(); }
+        }
+        if obs { writeln!(out, "ENUMEND {key} 256").unwrap(); }
     }
     if obs {
         writeln!(out, "ENUMEND AddpathDirection@src/bgp/types.rs 256").unwrap();
